@@ -102,6 +102,10 @@ func (m *Message) readHeader(r io.Reader, buf *bytes.Buffer) (cmd *dict.Command,
 	if err != nil {
 		return nil, stream, err
 	}
+	if m.Header.MessageLength < HeaderLength {
+		return nil, stream, fmt.Errorf("Invalid message length %d: shorter than the %d bytes header",
+			m.Header.MessageLength, HeaderLength)
+	}
 	cmd, err = m.Dictionary().FindCommand(
 		m.Header.ApplicationID,
 		m.Header.CommandCode,
